@@ -186,7 +186,9 @@ class Ctx:
         e["NUMBA_CACHE_DIR"] = os.path.join(VERIF, ".cache", "numba")
         e["TANGERMEME_VERIF"] = "1"
         e["PYTHONHASHSEED"] = "0"
-        e.setdefault("OMP_NUM_THREADS", "1")
+        e["OMP_NUM_THREADS"] = "1"
+        e["MKL_NUM_THREADS"] = "1"
+        e["NUMBA_NUM_THREADS"] = "1"      # workers run side by side; checks that study threading override this via env=
         e["VERIF_SEED"] = str(self.seed)
         if env:
             e.update({k: str(v) for k, v in env.items()})
